@@ -1,7 +1,7 @@
 /-
-C15 — helper lemmas for the JSON/dict decoder model (`Fault/Dict.lean`): whatever the
-decoder ends in is a value, a parser-side error, or one of a closed list of leaking
-exception types.
+C15 — helper lemmas for the JSON/dict decoder model (`Fault/Dict.lean`) after the repairs
+of the follow-up round: whatever the decoder ends in is a value or a parser-side error
+(`Clean`), for every universe, configuration, target and loaded JSON value.
 -/
 import XsdataModel.Proofs.C15NoLeak
 import XsdataModel.Fault.Dict
@@ -9,206 +9,208 @@ import XsdataModel.Fault.Dict
 namespace Proofs.C15
 open Py Xs.Bind Xs.Fault
 
-/-- the exception types that do escape from `DictDecoder.decode` (known findings) -/
-def dictLeaks : List String := ["AssertionError", "TypeError", "ValueError", "KeyError"]
+/-! ### `converter.serialize`: the only thing it leaks is the `TypeError` of `str.join` -/
 
-/-- parser-side errors plus the leaks of `dictLeaks` -/
-def Err.dictSide : Err → Bool
-  | .leaked s => dictLeaks.contains s
-  | err => Err.parseSide err
+/-- the errors of `converter.serialize` on loaded JSON -/
+def serErr : Err → Bool
+  | .converter => true
+  | .leaked s => s == "TypeError"
+  | _ => false
 
-def dcleanB {α} : Except Err α → Bool
-  | .ok _ => true
-  | .error err => Err.dictSide err
-
-def DClean {α} (r : Except Err α) : Prop := dcleanB r = true
-
-theorem DClean.ok {α} (a : α) : DClean (Except.ok a : Except Err α) := rfl
-theorem DClean.pure {α} (a : α) : DClean (pure a : Except Err α) := rfl
-theorem DClean.parser {α} (m : String) : DClean (Except.error (.parser m) : Except Err α) := rfl
-theorem DClean.throwParser {α} (m : String) : DClean (throw (Err.parser m) : Except Err α) := rfl
-theorem DClean.converter {α} : DClean (Except.error .converter : Except Err α) := rfl
-theorem DClean.context {α} (m : String) : DClean (Except.error (.context m) : Except Err α) := rfl
-theorem DClean.unsupported {α} (m : String) : DClean (Except.error (.unsupported m) : Except Err α) := rfl
-theorem DClean.throwUnsupported {α} (m : String) : DClean (throw (Err.unsupported m) : Except Err α) := rfl
-
-theorem DClean.of_clean {α} {r : Except Err α} (h : Clean r) : DClean r := by
-  cases r with
-  | ok a => rfl
-  | error err => cases err <;> first | rfl | cases h
-
-theorem DClean.error_cast {α β} {err : Err} (h : DClean (Except.error err : Except Err α)) :
-    DClean (Except.error err : Except Err β) := h
-
-theorem DClean.bind {α β} {x : Except Err α} {f : α → Except Err β}
-    (hx : DClean x) (hf : ∀ a, DClean (f a)) : DClean (x >>= f) := by
-  cases x with
-  | error err => exact hx
-  | ok a => exact hf a
-
-theorem DClean.map {α β} {x : Except Err α} {f : α → β} (hx : DClean x) : DClean (f <$> x) := by
-  cases x with
-  | error err => exact hx
-  | ok a => rfl
-
-theorem DClean.mapM {α β} (f : α → Except Err β) (hf : ∀ a, DClean (f a)) :
-    ∀ l : List α, DClean (l.mapM f)
-  | [] => by simp [List.mapM_nil]; exact DClean.pure _
-  | a :: l => by
-    rw [List.mapM_cons]
-    exact DClean.bind (hf a) (fun b => DClean.bind (DClean.mapM f hf l) (fun bs => DClean.pure _))
-
-theorem DClean.foldlM {α σ} (f : σ → α → Except Err σ) (hf : ∀ s a, DClean (f s a)) :
-    ∀ (l : List α) (s : σ), DClean (l.foldlM f s)
-  | [], s => by simp [List.foldlM_nil]; exact DClean.pure _
-  | a :: l, s => by
-    rw [List.foldlM_cons]
-    exact DClean.bind (hf s a) (fun s' => DClean.foldlM f hf l s')
-
-/-- a leak that is in the list -/
-theorem DClean.leak {α} (s : String) (h : dictLeaks.contains s = true) :
-    DClean (Except.error (.leaked s) : Except Err α) := h
-
-macro "dclean_leaf" : tactic => `(tactic| first
-  | exact DClean.ok _ | exact DClean.pure _ | exact DClean.parser _ | exact DClean.converter
-  | exact DClean.context _ | exact DClean.unsupported _ | exact DClean.throwParser _
-  | exact DClean.throwUnsupported _
-  | exact DClean.leak _ (by decide)
-  | exact DClean.of_clean (parseVar_clean _ _ _ _ _ _)
-  | exact DClean.of_clean (validateFixed_clean _ _ _)
-  | exact DClean.of_clean (classFactory_clean _ _ _)
-  | assumption)
-
-macro "dclean_descend" : tactic => `(tactic| repeat' (first
-  | dclean_leaf
-  | apply DClean.bind
-  | apply DClean.map
-  | apply DClean.mapM
-  | apply DClean.foldlM
-  | intro _
-  | split
-  | dsimp only))
+def SerOk {α} (r : Except Err α) : Prop := ∀ err, r = .error err → serErr err = true
 
 mutual
-theorem serializeJ_dclean : ∀ j : J, DClean (serializeJ j)
-  | .null | .bool _ | .int _ | .float _ | .str _ => by unfold serializeJ; rfl
-  | .obj _ => by unfold serializeJ; rfl
+theorem serializeJ_serOk : ∀ j : J, SerOk (serializeJ j)
+  | .null | .bool _ | .int _ | .float _ | .str _ => by unfold serializeJ; intro err h; cases h
+  | .obj _ => by unfold serializeJ; intro err h; cases h; rfl
   | .arr xs => by
-    have ih := serializeJs_dclean xs
+    have ih := serializeJs_serOk xs
     unfold serializeJ
-    split
-    · rename_i err heq; rw [heq] at ih; exact DClean.error_cast ih
-    · split <;> dclean_leaf
-theorem serializeJs_dclean : ∀ xs : List J, DClean (serializeJs xs)
-  | [] => by unfold serializeJs; rfl
+    intro err h
+    split at h
+    · rename_i err' heq; cases h; exact ih _ heq
+    · split at h
+      · cases h; rfl
+      · cases h
+theorem serializeJs_serOk : ∀ xs : List J, SerOk (serializeJs xs)
+  | [] => by unfold serializeJs; intro err h; cases h
   | x :: xs => by
-    have h1 := serializeJ_dclean x
-    have h2 := serializeJs_dclean xs
+    have h1 := serializeJ_serOk x
+    have h2 := serializeJs_serOk xs
     unfold serializeJs
-    split
-    · rename_i err heq; rw [heq] at h1; exact DClean.error_cast h1
-    · split
-      · rename_i err heq; rw [heq] at h2; exact DClean.error_cast h2
-      · rfl
+    intro err h
+    split at h
+    · rename_i err' heq; cases h; exact h1 _ heq
+    · split at h
+      · rename_i err' heq; cases h; exact h2 _ heq
+      · cases h
 end
 
-theorem dictOf_dclean (j : J) : DClean (dictOf j) := by
+theorem SerOk.clean_of_ne {α} {r : Except Err α} (hs : SerOk r)
+    (hne : r = .error (.leaked "TypeError") → False) : Clean r := by
+  cases hr : r with
+  | ok v => rfl
+  | error err =>
+    have := hs err hr
+    cases err <;> simp [serErr] at this
+    · rfl
+    · subst this; exact absurd hr hne
+
+theorem dictOf_clean (j : J) : Clean (dictOf j) := by
   unfold dictOf
-  split <;> dclean_leaf
+  split <;> clean_leaf
 
-theorem findTypeJ_dclean (Γ : Ctx) (j : J) : DClean (findTypeJ Γ j) := by
+theorem findTypeJ_clean (Γ : Ctx) (j : J) : Clean (findTypeJ Γ j) := by
   unfold findTypeJ
-  split <;> dclean_leaf
+  split <;> clean_leaf
 
-theorem bindTextJ_dclean (e : BEnv) (cfg : ParserConfig) (var : XmlVar) (j : J) : DClean (bindTextJ e cfg var j) := by
+/-- `bind_text`: the `TypeError` of `serialize` is translated, everything else was clean already -/
+theorem bindTextJ_clean (e : BEnv) (cfg : ParserConfig) (var : XmlVar) (j : J) : Clean (bindTextJ e cfg var j) := by
   unfold bindTextJ
-  have := serializeJ_dclean j
-  dclean_descend
+  have hs := serializeJ_serOk j
+  clean_descend
+  all_goals exact SerOk.clean_of_ne hs ‹_›
 
-macro_rules | `(tactic| dclean_leaf) => `(tactic| exact dictOf_dclean _)
-macro_rules | `(tactic| dclean_leaf) => `(tactic| exact findTypeJ_dclean _ _)
-macro_rules | `(tactic| dclean_leaf) => `(tactic| exact bindTextJ_dclean _ _ _ _)
+macro_rules | `(tactic| clean_leaf) => `(tactic| exact dictOf_clean _)
+macro_rules | `(tactic| clean_leaf) => `(tactic| exact findTypeJ_clean _ _)
+macro_rules | `(tactic| clean_leaf) => `(tactic| exact bindTextJ_clean _ _ _ _)
 
 /-- `bind_best_dataclass` swallows everything its candidates raise -/
-theorem bindBest_dclean (e : BEnv) (Γ : Ctx) (cfg : ParserConfig) (fuel : Nat) (kvs : List (Str × J)) (cs : List ClassId) :
-    DClean (bindBest e Γ cfg fuel kvs cs) := by
+theorem bindBest_clean (e : BEnv) (Γ : Ctx) (cfg : ParserConfig) (fuel : Nat) (kvs : List (Str × J)) (cs : List ClassId) :
+    Clean (bindBest e Γ cfg fuel kvs cs) := by
   cases fuel with
   | zero => unfold bindBest; rfl
   | succ n =>
     unfold bindBest
-    dclean_descend
+    clean_descend
 
-macro_rules | `(tactic| dclean_leaf) => `(tactic| exact bindBest_dclean _ _ _ _ _ _)
+macro_rules | `(tactic| clean_leaf) => `(tactic| exact bindBest_clean _ _ _ _ _ _)
+
+/-! ### `find_var`: what a match tells about the value -/
+
+/-- a var found through the wrapper key comes with an object that holds the field's key -/
+theorem findVar_spec (vars : List XmlVar) (key : Str) (value : J) (var : XmlVar)
+    (h : findVar vars key value = some var) :
+    var.localName = key ∨
+      ∃ inner v, value = .obj inner ∧ J.get inner var.localName = some v := by
+  unfold findVar at h
+  obtain ⟨a, _, hf⟩ := List.exists_of_findSome?_eq_some h
+  dsimp only at hf
+  split at hf
+  · rename_i hk
+    split at hf
+    · cases hf; exact .inl hk
+    · cases hf
+  · split at hf
+    · split at hf
+      · rename_i inner
+        split at hf
+        · rename_i v hv
+          split at hf
+          · cases hf; exact .inr ⟨inner, v, rfl, hv⟩
+          · cases hf
+        · cases hf
+      · cases hf
+    · cases hf
+
 
 /-- the two functions that recurse through each other, by induction on the fuel -/
-theorem bind_dclean (e : BEnv) (Γ : Ctx) : ∀ fuel : Nat,
-    (∀ cfg data c, DClean (bindDataclass e Γ cfg fuel data c)) ∧
-    (∀ cfg m var v r, DClean (bindValue e Γ cfg fuel m var v r))
+theorem bind_clean (e : BEnv) (Γ : Ctx) : ∀ fuel : Nat,
+    (∀ cfg data c, Clean (bindDataclass e Γ cfg fuel data c)) ∧
+    (∀ cfg m var v r, Clean (bindValue e Γ cfg fuel m var v r))
   | 0 => ⟨fun _ _ _ => by unfold bindDataclass; rfl, fun _ _ _ _ _ => by unfold bindValue; rfl⟩
   | n + 1 => by
-    have ⟨ihD, ihV⟩ := bind_dclean e Γ n
+    have ⟨ihD, ihV⟩ := bind_clean e Γ n
     constructor
     · intro cfg data c
       have h1 := fun d c => ihD cfg d c
       have h2 := fun m var v r => ihV cfg m var v r
       unfold bindDataclass
-      repeat' (first
-        | dclean_leaf
-        | exact h1 _ _
-        | exact h2 _ _ _ _
-        | apply DClean.bind
-        | apply DClean.foldlM
-        | intro _
-        | split
-        | dsimp only)
+      cases data with
+      | obj kvs =>
+        dsimp only
+        split
+        · exact h1 _ _
+        · split
+          · rfl
+          · rename_i m hm
+            apply Clean.bind
+            · apply Clean.foldlM
+              intro params kv
+              split
+              · split <;> clean_leaf
+              · rename_i var hfind
+                have hspec := findVar_spec _ _ _ _ hfind
+                split
+                · rename_i hc
+                  simp only [Bool.and_eq_true, decide_eq_true_eq] at hc
+                  rcases hspec with hk | ⟨inner, v, hv, hg⟩
+                  · exact absurd hk hc.2
+                  · rw [hv]
+                    simp only [hg]
+                    repeat' (first
+                      | clean_leaf
+                      | exact h2 _ _ _ _
+                      | apply Clean.bind
+                      | intro _
+                      | split
+                      | dsimp only)
+                · repeat' (first
+                    | clean_leaf
+                    | exact h2 _ _ _ _
+                    | apply Clean.bind
+                    | intro _
+                    | split
+                    | dsimp only)
+            · intro params; exact classFactory_clean _ _ _
+      | _ => rfl
     · intro cfg m var v r
       have h1 := fun d c => ihD cfg d c
       have h2 := fun m var v r => ihV cfg m var v r
-      have hc : ∀ var kvs, DClean (bindComplexWith (bindBest e Γ cfg n) (bindDataclass e Γ cfg n) Γ var kvs) := by
+      have hc : ∀ var kvs, Clean (bindComplexWith (bindBest e Γ cfg n) (bindDataclass e Γ cfg n) Γ var kvs) := by
         intro var kvs
         unfold bindComplexWith
         repeat' (first
-          | dclean_leaf
+          | clean_leaf
           | exact h1 _ _
           | split
           | dsimp only)
       unfold bindValue
       repeat' (first
-        | dclean_leaf
+        | clean_leaf
         | exact h1 _ _
         | exact h2 _ _ _ _
         | exact hc _ _
-        | apply DClean.bind
-        | apply DClean.map
-        | apply DClean.mapM
+        | apply Clean.bind
+        | apply Clean.map
+        | apply Clean.mapM
         | intro _
         | split
         | dsimp only)
 
-theorem decode_dclean (e : BEnv) (Γ : Ctx) (cfg : ParserConfig) (fuel : Nat) (c : ClassId) (listOf : Bool) (data : J) :
-    DClean (decode e Γ cfg fuel c listOf data) := by
-  have h1 := fun d c => (bind_dclean e Γ fuel).1 cfg d c
+theorem bindAll_clean (e : BEnv) (Γ : Ctx) (cfg : ParserConfig) (fuel : Nat) (c : ClassId) (data : J) :
+    Clean (bindAll e Γ cfg fuel c data) := by
+  have h1 := fun d c => (bind_clean e Γ fuel).1 cfg d c
+  unfold bindAll
+  split
+  · exact Clean.bind (Clean.mapM _ (fun x => h1 x c) _) (fun _ => Clean.pure _)
+  · exact h1 _ _
+
+theorem decode_clean (e : BEnv) (Γ : Ctx) (cfg : ParserConfig) (fuel : Nat) (c : ClassId) (listOf : Bool) (data : J) :
+    Clean (decode e Γ cfg fuel c listOf data) := by
+  have h1 := fun d c => (bind_clean e Γ fuel).1 cfg d c
   unfold decode
   repeat' (first
-    | dclean_leaf
+    | clean_leaf
     | exact h1 _ _
-    | apply DClean.bind
-    | apply DClean.mapM
+    | apply Clean.bind
+    | apply Clean.mapM
     | intro _
     | split
     | dsimp only)
 
-
-theorem bindAll_dclean (e : BEnv) (Γ : Ctx) (cfg : ParserConfig) (fuel : Nat) (c : ClassId) (data : J) :
-    DClean (bindAll e Γ cfg fuel c data) := by
-  have h1 := fun d c => (bind_dclean e Γ fuel).1 cfg d c
-  unfold bindAll
-  split
-  · exact DClean.bind (DClean.mapM _ (fun x => h1 x c) _) (fun _ => DClean.pure _)
-  · exact h1 _ _
-
-theorem decodeAuto_dclean (e : BEnv) (Γ : Ctx) (cfg : ParserConfig) (fuel : Nat) (data : J) :
-    DClean (decodeAuto e Γ cfg fuel data) := by
+theorem decodeAuto_clean (e : BEnv) (Γ : Ctx) (cfg : ParserConfig) (fuel : Nat) (data : J) :
+    Clean (decodeAuto e Γ cfg fuel data) := by
   unfold decodeAuto
   split
   · rfl
@@ -216,186 +218,15 @@ theorem decodeAuto_dclean (e : BEnv) (Γ : Ctx) (cfg : ParserConfig) (fuel : Nat
     split
     · split
       · rfl
-      · exact bindAll_dclean _ _ _ _ _ _
+      · exact bindAll_clean _ _ _ _ _ _
     · rfl
 
-/-! ### the region without leaks: flat documents on plain classes -/
+theorem parseJson_clean (e : BEnv) (Γ : Ctx) (cfg : ParserConfig) (fuel : Nat) (c : ClassId) (listOf : Bool) (l : Loaded) :
+    Clean (parseJson e Γ cfg fuel c listOf l) := by
+  cases l <;> first | exact decode_clean _ _ _ _ _ _ _ | rfl
 
-/-- a JSON scalar other than null -/
-def J.scalar : J → Bool
-  | .null | .arr _ | .obj _ => false
-  | _ => true
-
-/-- a scalar, null, or an array of non-null scalars -/
-def J.flat : J → Bool
-  | .obj _ => false
-  | .arr xs => xs.all J.scalar
-  | _ => true
-
-/-- an object whose members are flat — or anything that is not an object (rejected with
-ParserError since the decoder checks `isinstance(data, dict)`) -/
-def flatObj : J → Bool
-  | .obj kvs => kvs.all (fun kv => J.flat kv.2)
-  | _ => true
-
-/-- a document: one such value, or an array of them (for `list[clazz]` targets) -/
-def flatTop : J → Bool
-  | .arr xs => xs.all flatObj
-  | d => flatObj d
-
-/-- no `xs:anyAttribute` field and no wrapped list field -/
-def plainMeta (m : XmlMeta) : Bool := (allVars m).all (fun v => !v.isAttributes && v.wrapperQName.isNone)
-
-/-- the class as `DictDecoder` builds it (`context.build(clazz)`, no parent namespace) is plain -/
-def plainClass (Γ : Ctx) (c : ClassId) : Bool :=
-  match (Γ.find c).bind (·.metaFor none) with
-  | some m => plainMeta m
-  | none => true
-
-theorem Clean.mapM_mem {α β} (f : α → Except Err β) :
-    ∀ l : List α, (∀ a ∈ l, Clean (f a)) → Clean (l.mapM f)
-  | [], _ => by simp [List.mapM_nil]; exact Clean.pure _
-  | a :: l, h => by
-    rw [List.mapM_cons]
-    exact Clean.bind (h a (by simp)) (fun b => Clean.bind
-      (Clean.mapM_mem f l (fun x hx => h x (by simp [hx]))) (fun bs => Clean.pure _))
-
-theorem Clean.foldlM_mem {α σ} (f : σ → α → Except Err σ) :
-    ∀ (l : List α) (s : σ), (∀ s, ∀ a ∈ l, Clean (f s a)) → Clean (l.foldlM f s)
-  | [], s, _ => by simp [List.foldlM_nil]; exact Clean.pure _
-  | a :: l, s, h => by
-    rw [List.foldlM_cons]
-    exact Clean.bind (h s a (by simp)) (fun s' => Clean.foldlM_mem f l s' (fun s x hx => h s x (by simp [hx])))
-
-theorem serializeJ_scalar (j : J) (h : J.scalar j = true) : ∃ s, serializeJ j = .ok (some s) := by
-  cases j <;> simp [J.scalar] at h <;> simp [serializeJ]
-
-theorem serializeJ_scalars : ∀ xs : List J, xs.all J.scalar = true →
-    ∃ parts, serializeJs xs = .ok parts ∧ parts.any Option.isNone = false
-  | [], _ => ⟨[], by simp [serializeJs], rfl⟩
-  | x :: xs, h => by
-    simp only [List.all_cons, Bool.and_eq_true] at h
-    obtain ⟨s, hs⟩ := serializeJ_scalar x h.1
-    obtain ⟨parts, hp, hn⟩ := serializeJ_scalars xs h.2
-    refine ⟨some s :: parts, ?_, ?_⟩
-    · simp [serializeJs, hs, hp]
-    · simp [hn]
-
-theorem serializeJ_flat (j : J) (h : J.flat j = true) : Clean (serializeJ j) := by
-  cases j with
-  | obj kvs => simp [J.flat] at h
-  | arr xs =>
-    obtain ⟨parts, hp, hn⟩ := serializeJ_scalars xs (by simpa [J.flat] using h)
-    simp [serializeJ, hp, hn]
-    rfl
-  | _ => unfold serializeJ; rfl
-
-theorem bindTextJ_clean (e : BEnv) (cfg : ParserConfig) (var : XmlVar) (j : J) (h : Clean (serializeJ j)) :
-    Clean (bindTextJ e cfg var j) := by
-  unfold bindTextJ
-  clean_descend
-
-theorem bindValue_flat (e : BEnv) (Γ : Ctx) (cfg : ParserConfig) (m : XmlMeta) (var : XmlVar)
-    (hv : var.isAttributes = false) :
-    ∀ (fuel : Nat) (v : J) (r : Bool), J.flat v = true → Clean (bindValue e Γ cfg fuel m var v r)
-  | 0, _, _, _ => by unfold bindValue; rfl
-  | n + 1, v, r, hf => by
-    unfold bindValue
-    rw [hv]
-    simp only [Bool.false_eq_true, if_false]
-    generalize (!r && var.listElement) = b
-    cases v with
-    | obj kvs => simp [J.flat] at hf
-    | arr xs =>
-      have hx : ∀ x ∈ xs, Clean (bindValue e Γ cfg n m var x true) := by
-        intro x hx
-        apply bindValue_flat e Γ cfg m var hv n x true
-        have := List.all_eq_true.mp (by simpa [J.flat] using hf) x hx
-        cases x <;> simp [J.scalar] at this <;> rfl
-      cases b
-      · exact bindTextJ_clean e cfg var _ (serializeJ_flat _ hf)
-      · exact Clean.bind (Clean.mapM_mem _ _ hx) (fun _ => Clean.pure _)
-    | _ => cases b <;> exact bindTextJ_clean e cfg var _ (serializeJ_flat _ hf)
-
-theorem findVar_mem (vars : List XmlVar) (key : Str) (value : J) (var : XmlVar)
-    (h : findVar vars key value = some var) : var ∈ vars := by
-  unfold findVar at h
-  obtain ⟨a, ha, hf⟩ := List.exists_of_findSome?_eq_some h
-  have : a = var := by
-    dsimp only at hf
-    repeat' split at hf
-    all_goals first | (cases hf; rfl) | cases hf
-  exact this ▸ ha
-
-/-- flat documents on plain classes do not leak -/
-theorem J.flat_flatObj (v : J) (h : J.flat v = true) : flatObj v = true := by
-  cases v <;> first | rfl | (simp [J.flat] at h)
-
-theorem J.get_mem (kvs : List (Str × J)) (k : Str) (v : J) (h : J.get kvs k = some v) : ∃ kv ∈ kvs, kv.2 = v := by
-  unfold J.get at h
-  cases hf : kvs.find? (·.1 = k) with
-  | none => simp [hf] at h
-  | some kv =>
-    simp [hf] at h
-    exact ⟨kv, List.mem_of_find?_eq_some hf, h⟩
-
-/-- `bind_dataclass` on flat objects (and on anything that is not an object) of a plain class -/
-theorem bindDataclass_flat (e : BEnv) (Γ : Ctx) (cfg : ParserConfig) (c : ClassId) (hc : plainClass Γ c = true) :
-    ∀ (fuel : Nat) (data : J), flatObj data = true → Clean (bindDataclass e Γ cfg fuel data c)
-  | 0, _, _ => by unfold bindDataclass; rfl
-  | n + 1, data, hd => by
-    cases data with
-    | obj kvs =>
-      have hflat : kvs.all (fun kv => J.flat kv.2) = true := by simpa [flatObj] using hd
-      unfold bindDataclass
-      dsimp only
-      split
-      · -- derived keys: the `value` member is flat, hence not an object
-        apply bindDataclass_flat e Γ cfg c hc n
-        cases hg : J.get kvs "value".toList with
-        | none => rfl
-        | some v =>
-          obtain ⟨kv, hkv, hv⟩ := J.get_mem _ _ _ hg
-          have := List.all_eq_true.mp hflat kv hkv
-          simp only [Option.getD_some]
-          exact J.flat_flatObj v (hv ▸ this)
-      · unfold plainClass at hc
-        split
-        · rfl
-        · rename_i m hm
-          rw [hm] at hc
-          apply Clean.bind
-          · apply Clean.foldlM_mem
-            intro params kv hkv
-            split
-            · split <;> clean_leaf
-            · rename_i var hfind
-              have hmem := findVar_mem _ _ _ _ hfind
-              have hp := List.all_eq_true.mp hc var hmem
-              simp only [Bool.and_eq_true, Bool.not_eq_true'] at hp
-              have hw : (wrapperName var).isSome = false := by
-                unfold wrapperName; cases hq : var.wrapperQName <;> simp_all
-              rw [hw]
-              simp only [Bool.false_eq_true, if_false, pure_bind]
-              have hfl := List.all_eq_true.mp hflat kv hkv
-              have hb := fun fuel r => bindValue_flat e Γ cfg m var hp.1 fuel kv.2 r hfl
-              clean_descend
-              all_goals exact hb _ _
-          · intro params; exact classFactory_clean _ _ _
-    | _ => unfold bindDataclass; rfl
-
-/-- flat documents on plain classes do not leak, whatever the target (`clazz` or `list[clazz]`) -/
-theorem decode_flat_clean (e : BEnv) (Γ : Ctx) (cfg : ParserConfig) (fuel : Nat) (c : ClassId) (listOf : Bool) (data : J)
-    (hd : flatTop data = true) (hc : plainClass Γ c = true) :
-    Clean (decode e Γ cfg fuel c listOf data) := by
-  unfold decode
-  split
-  · rfl
-  · cases data with
-    | arr xs =>
-      have hx : ∀ x ∈ xs, Clean (bindDataclass e Γ cfg fuel x c) := fun x hx =>
-        bindDataclass_flat e Γ cfg c hc fuel x (List.all_eq_true.mp (by simpa [flatTop] using hd) x hx)
-      exact Clean.bind (Clean.mapM_mem _ _ hx) (fun _ => Clean.pure _)
-    | _ => exact bindDataclass_flat e Γ cfg c hc fuel _ (by simpa [flatTop] using hd)
+theorem parseJsonAuto_clean (e : BEnv) (Γ : Ctx) (cfg : ParserConfig) (fuel : Nat) (l : Loaded) :
+    Clean (parseJsonAuto e Γ cfg fuel l) := by
+  cases l <;> first | exact decodeAuto_clean _ _ _ _ _ | rfl
 
 end Proofs.C15
